@@ -97,3 +97,45 @@ func ZZ_C02_cash() {
 		vAssert("padding-zero", pay[52]&0x01 == 0)
 	}
 }
+
+// ZZ_C02_prefix: prefixes that are close to the network's own (one letter appended, one letter
+// dropped, one letter changed) never let a string through, with a checksum valid for that prefix.
+func ZZ_C02_prefix() {
+	net := zzNet()
+	base := net.CashAddressPrefix
+	if vCase("slp", 0, 1) == 1 {
+		base = net.SlpAddressPrefix
+		if base == "" {
+			return
+		}
+	}
+	var pfx string
+	switch vCase("variant", 0, 3) {
+	case 0:
+		pfx = base + string(zzLetters[vSym("extra", 5)])
+	case 1:
+		pfx = base[:len(base)-1]
+	case 2:
+		i := vCase("pos", 0, len(base)-1)
+		b := []byte(base)
+		b[i] = zzLetters[vSym("repl", 5)]
+		pfx = string(b)
+		vAssume(pfx != base)
+	case 3:
+		pfx = string(zzLetters[vSym("extra", 5)]) + base
+	}
+	vAssume(pfx != net.CashAddressPrefix && pfx != net.SlpAddressPrefix)
+	n := 34
+	if vCase("long", 0, 1) == 1 {
+		n = 53
+	}
+	pay := vSyms("pay", n, 5)
+	s := encode(pfx, pay)
+	in := pfx + ":" + s
+	if vCase("upper", 0, 1) == 1 {
+		in = zzUpper(in)
+	}
+	vReach("in")
+	_, err := DecodeAddress(in, net)
+	vAssert("near-prefix-rejected", err != nil)
+}
